@@ -153,6 +153,8 @@ async fn run_srv(tok: &[&str]) -> String {
             "allow" => Policy::Allow,
             "deny" => Policy::Deny,
             "ro" => Policy::ReadOnly(ReadOnlyAuthorizationHandler::create()),
+            // a handler that overrides nothing: the provided methods of the trait decide
+            "default" => Policy::ReadOnly(Arc::new(points::DefaultAuth)),
             x => Policy::Hash(x[1..].parse().unwrap()),
         };
         Some((
